@@ -330,3 +330,20 @@ def r5(ctx, lib):
     h = lib.body("hasher::FileHasher::<'_>::hash_transformed_or_log_err")
     if h is None:
         ctx.missing(rule, 'hash_transformed_or_log_err')
+    else:
+        # NotFound can come from anywhere in the transform pipeline (the program removed or renamed its input: gzip $IN; the temporary copy;
+        # the output file), so the silent exit additionally needs a test that the scanned file itself is gone
+        from ..analysis import slice_const_values
+        warn = [c for c in h.calls() if c.matches(LOG_CALL)]
+        nf = [kc for kc in h.calls(r'ErrorKind as std::cmp::PartialEq>::eq$') if any(str(v).endswith('ErrorKind::NotFound') for a in kc.args for v in slice_const_values(lib, backslice(h, [a])))]
+        probe = [c for c in h.calls(r'^std::path::Path::(exists|try_exists|metadata|symlink_metadata|is_file)$|^std::fs::(metadata|symlink_metadata)$') if 'path' in backslice(h, [c.args[0]]).field_names()]
+        guarded = False
+        for c in probe:
+            # the probe result decides between the silent exit and the warning
+            for (bbx, idx, what) in h.operand_uses(c.dest[0]):
+                pass
+            guarded = guarded or any(w.bb in h.reachable(c.bb) for w in warn)
+        ctx.check(bool(nf) and bool(probe) and guarded, rule, h.path + '|silent-only-if-the-file-is-gone', (nf[0].where() if nf else h.where()),
+                  'a NotFound error is passed over silently only when the scanned file itself no longer exists',
+                  'every NotFound error of the transform pipeline is taken for a vanished input: a program that removes or renames the file it is given (`--in-place --transform "gzip $IN"`, mv, rm) '
+                  'makes the re-open of the temporary fail with ENOENT, and every file - all perfectly readable - is dropped from the report without a single warning (exit 0, "Found 0 redundant files")')
